@@ -254,6 +254,10 @@ func (s *Subject) Exec(step int, op Op) (res Res) {
 		}
 		data, anom := ReadAllVia(r, op.Buf, 1<<22)
 		cerr := r.Close()
+		if strings.HasPrefix(anom, "Read error: ") {
+			// an error delivered by Read (instead of by the open call) is an error result
+			return Res{Err: true, Text: anom}
+		}
 		if anom != "" {
 			return Res{Anom: anom}
 		}
